@@ -1014,7 +1014,6 @@ func checkNamedFilterApplied(w *World, r *Report) {
 	r.Counts["node renderers that apply a named filter"] = n
 }
 
-
 // depositsOf: the indices of the pointer parameters of g into whose pointee the error handed in
 // as parameter i is stored (wrapped or not).
 func (a *errAnalysis) depositsOf(g *ssa.Function, i int) []int {
@@ -1088,7 +1087,6 @@ func (a *errAnalysis) withdraws(g *ssa.Function, j int) bool {
 	}
 	return res
 }
-
 
 // overwrittenUnseen: the block of call c lies on a cycle that passes no nil test of the call's
 // error (and no instruction that puts the error away: a wrapping call, an append, a store into a
